@@ -52,17 +52,23 @@ class SingleFieldSubscriptionsRule(ValidationRule):
                 for definition in document.definitions
                 if isinstance(definition, FragmentDefinitionNode)
             }
-            grouped_field_set, _new_defer_usages, forbidden_directive_instances = (
-                collect_fields(
-                    schema,
-                    fragments,
-                    variable_values,
-                    subscription_type,
-                    node,
-                    self.context.hide_suggestions,
-                    True,
+            try:
+                grouped_field_set, _new_defer_usages, forbidden_directive_instances = (
+                    collect_fields(
+                        schema,
+                        fragments,
+                        variable_values,
+                        subscription_type,
+                        node,
+                        self.context.hide_suggestions,
+                        True,
+                    )
                 )
-            )
+            except GraphQLError:
+                # The document has not been validated yet, so collecting the fields
+                # may fail on invalid directive arguments in the top level selection;
+                # these are reported by the rules that check the arguments.
+                return
             if forbidden_directive_instances:
                 self.report_error(
                     GraphQLError(
